@@ -191,7 +191,7 @@ func (c *Cluster) DumpTo(b *bytes.Buffer) {
 		}
 		b.WriteByte('\n')
 	}
-	fmt.Fprintf(b, "H %v\nB %s\n", c.Hist, c.B.String())
+	fmt.Fprintf(b, "H %v\nB %s\nP %v\n", c.Hist, c.B.String(), c.Blocked)
 }
 
 func raftFutureChan(f any) uintptr {
